@@ -18,7 +18,8 @@ trap cleanup EXIT
 echo "== demo WITHOUT the change =="
 run_demo() {
   if [ -f "$S/demo.sh" ]; then
-    (cd "$W" && sed "s#$S#$W.scratch#g; s#${S%-scratch}#$W#g" "$S/demo.sh" > "$W.demo.sh" && mkdir -p "$W.scratch" && bash "$W.demo.sh" >"$W.demo.log" 2>&1); rc=$?
+    WT=${SEED_WT:-${S%-scratch}}
+    (cd "$W" && sed "s#$S#$W.scratch#g; s#$WT-scratch#$W.scratch#g; s#$WT#$W#g" "$S/demo.sh" > "$W.demo.sh" && mkdir -p "$W.scratch" && bash "$W.demo.sh" >"$W.demo.log" 2>&1); rc=$?
   else
     t=$(ls "$S"/*_test.go 2>/dev/null | head -1)
     [ -n "$t" ] || { echo "no demo found"; return 99; }
